@@ -82,6 +82,7 @@ class _RecQueue:
 
     def __init__(self):
         self.items = []
+        self.ops = None
         self.crash_at_put = None
         self.crash_owner = None
 
@@ -90,6 +91,8 @@ class _RecQueue:
             self.crash_owner.fired = True
             raise InjectedCrash(f"injected failure at queue put {len(self.items)}")
         self.items.append(item)
+        if self.ops is not None:
+            self.ops.append(("put", len(self.items) - 1))
 
     def put_nowait(self, item):
         self.put(item)
@@ -151,6 +154,8 @@ class VProcess:
         # environment state
         self.started = False
         self.msgs = None
+        self.ops = []  # ordered events of the worker body: ("put", i) / ("acq", sem) / ("rel", sem)
+        self.pos = 0
         self.q = None
         self.delivered = 0
         self.done = False  # exited or died
@@ -185,8 +190,57 @@ class VProcess:
         raise ModelIncomplete(f"environment model incomplete: Process.{name}")
 
 
+class VSem:
+    """multiprocessing.Semaphore / BoundedSemaphore / Lock shared between the parent and the workers.
+    Inside a worker body (which runs while its behaviour is recorded) acquire/release become events of that worker:
+    an acquire is enabled only while the value is positive, and a worker killed between an acquire and its release
+    never gives the slot back."""
+
+    def __init__(self, sched, value=1):
+        self._s = sched
+        self.value = value
+        self.sid = len(sched.sems)
+        sched.sems.append(self)
+        sched.uses_sync = True
+
+    def acquire(self, block=True, timeout=None):
+        rec = self._s.recording
+        if rec is not None:
+            rec.append(("acq", self))
+            return True
+        return self._s.op_parent_acquire(self, block, timeout)
+
+    def release(self):
+        rec = self._s.recording
+        if rec is not None:
+            rec.append(("rel", self))
+            return
+        self._s.point(f"release(sem{self.sid})")
+        self.value += 1
+
+    def __enter__(self):
+        self.acquire()
+        return self
+
+    def __exit__(self, *a):
+        self.release()
+        return False
+
+    def __getattr__(self, name):
+        raise ModelIncomplete(f"environment model incomplete: Semaphore.{name}")
+
+
 class VirtualMP:
     """Stands in for the `multiprocessing` module inside gaftools.cli.realign."""
+
+    def Semaphore(self, value=1):
+        return VSem(self._s, value)
+
+    def BoundedSemaphore(self, value=1):
+        return VSem(self._s, value)
+
+    def Lock(self):
+        return VSem(self._s, 1)
 
     def __init__(self, sched):
         self._s = sched
@@ -213,6 +267,8 @@ def _simple(v, depth=0):
         return ("P", v.wid), False
     if isinstance(v, VQueue):
         return ("Q", v.qid), False
+    if isinstance(v, VSem):
+        return ("S", v.sid, v.value), False
     if isinstance(v, _queue.PriorityQueue):
         try:
             return ("PQ", tuple(sorted((x.priority, x.seq) for x in v.queue))), False
@@ -246,6 +302,9 @@ class Exec:
         self.trace = []  # parent-visible operation results, for conformance replay
         self.workers = []
         self.queues = []
+        self.sems = []
+        self.uses_sync = False
+        self.recording = None
         self.nops = 0
         self.nevents = 0
         self.timeouts = 0
@@ -280,11 +339,14 @@ class Exec:
         for w in self.workers:
             if not (w.started and not w.done):
                 continue
-            if cap is not None and w.q is not None and len(w.q.items) >= cap:
-                f = self.faults.get(w.wid)
-                dying = f is not None and f["code"] < 0 and w.delivered == f["k"]
-                if w.delivered < len(w.msgs) and not dying:
+            f = self.faults.get(w.wid)
+            dying = f is not None and f["code"] < 0 and w.pos == f["k"]
+            if not dying and w.pos < len(w.ops):
+                op = w.ops[w.pos]
+                if op[0] == "put" and cap is not None and w.q is not None and len(w.q.items) >= cap:
                     continue  # the pipe is full: the worker's feeder blocks until the parent reads
+                if op[0] == "acq" and op[1].value <= 0:
+                    continue  # blocked in acquire()
             out.append(w)
         return out
 
@@ -292,15 +354,40 @@ class Exec:
         """perform the next event of worker w."""
         self.nevents += 1
         f = self.faults.get(w.wid)
-        if f is not None and f["code"] < 0 and w.delivered == f["k"]:
+        if f is not None and f["code"] < 0 and w.pos == f["k"]:
             w.done, w.code = True, f["code"]
             return ("die", w.wid)
-        if w.delivered < len(w.msgs):
-            w.q.items.append(w.msgs[w.delivered])
-            w.delivered += 1
-            return ("deliver", w.wid)
+        if w.pos < len(w.ops):
+            op = w.ops[w.pos]
+            w.pos += 1
+            if op[0] == "put":
+                w.q.items.append(w.msgs[op[1]])
+                w.delivered += 1
+                return ("deliver", w.wid)
+            if op[0] == "acq":
+                op[1].value -= 1
+                return ("acquire", w.wid)
+            op[1].value += 1
+            return ("release", w.wid)
         w.done, w.code = True, w.natural_code
         return ("exit", w.wid)
+
+    def op_parent_acquire(self, sem, block, timeout):
+        label = f"acquire(sem{sem.sid})"
+        if block and timeout is None:
+            while sem.value <= 0:
+                if not self.enabled():
+                    raise Hang("deadlock")
+                self._force_one(label)
+            self.point(label)
+            if sem.value <= 0:
+                return self.op_parent_acquire(sem, block, timeout)
+        else:
+            self.point(label)
+            if sem.value <= 0:
+                return False
+        sem.value -= 1
+        return True
 
     def parent_state(self):
         if not self.want_state:
@@ -318,7 +405,7 @@ class Exec:
                     loc.append((k, v))
                 frames.append((fr.f_code.co_name, fr.f_lineno, tuple(loc)))
             fr = fr.f_back
-        env = tuple((w.wid, w.started, w.delivered, w.done, w.code) for w in self.workers)
+        env = tuple((w.wid, w.started, w.pos, w.delivered, w.done, w.code) for w in self.workers) + tuple(x.value for x in self.sems)
         qs = tuple(tuple(repr(getattr(x, "priority", None)) for x in q.items) for q in self.queues)
         stut = (self.last_empty, self.since_empty_events == 0)
         return fw.h64(repr((frames, env, qs, self.out.getvalue(), self.created, self.started_n, self.joined_n, stut)))
@@ -434,15 +521,18 @@ class Exec:
         self.started_n += 1
         p.pid = 10000 + p.wid
         # run the real worker body on a private copy of its arguments (fork isolation) and record what it sends
-        args = copy.deepcopy(tuple(a for a in p.args if not isinstance(a, VQueue)))
+        shared = (VQueue, VSem)
+        args = copy.deepcopy(tuple(a for a in p.args if not isinstance(a, shared)))
         qs = [a for a in p.args if isinstance(a, VQueue)]
         rq = _RecQueue()
+        rq.ops = p.ops
         call = []
         it = iter(args)
         for a in p.args:
-            call.append(rq if isinstance(a, VQueue) else next(it))
+            call.append(rq if isinstance(a, VQueue) else (a if isinstance(a, VSem) else next(it)))
         p.q = qs[0] if qs else None
         f = self.faults.get(p.wid)
+        self.recording = p.ops
         try:
             if f is not None and f["code"] >= 0:
                 # a crash (Python exception) inside the worker body: the worker's own code decides what still happens
@@ -462,6 +552,7 @@ class Exec:
             p.natural_code = e.code if isinstance(e.code, int) else (0 if e.code is None else 1)
         except Exception:
             p.natural_code = 1
+        self.recording = None
         p.msgs = rq.items
         self.trace.append((f"start(w{p.wid})", len(p.msgs)))
 
